@@ -397,10 +397,23 @@ func runC17(c *config) {
 			o.Sample(map[string]interface{}{"src": src, "refs": refs})
 		}
 	}
-	// 3. corpus modules with real debug info: identity and fixpoint
+	// 3. corpus modules with real debug info: identity and fixpoint; also with every specialised definition
+	// written in place once more (inlineVariant, shared with C04)
 	files, _ := filepath.Glob("/verif/corpus/modules/*.ll")
+	var texts []string
 	for _, f := range files {
 		b, _ := os.ReadFile(f)
+		texts = append(texts, string(b))
+	}
+	nfiles := len(files)
+	for i := 0; i < nfiles; i++ {
+		if v := inlineVariant(texts[i]); v != "" {
+			files = append(files, files[i]+" (inline variant)")
+			texts = append(texts, v)
+		}
+	}
+	for fi, f := range files {
+		b := []byte(texts[fi])
 		m, err := asm.ParseString(f, string(b))
 		if err != nil {
 			o.Fail("md_corpus", "", "corpus module does not parse", map[string]string{"file": f, "err": err.Error()})
@@ -483,6 +496,49 @@ func runC17(c *config) {
 			} else {
 				o.Pass("md_distinct_kept")
 			}
+		}
+	}
+	// 3c. histories on one module: print, exchange definitions for new unnumbered ones (the list keeps its length),
+	// print again: every definition of the second print carries an ID and the text parses back to as many
+	rh := newRng(c.seed, "c17-history")
+	for i := 0; i < 120*c.scale; i++ {
+		hm := ir.NewModule()
+		n := 2 + rh.intn(5)
+		for k := 0; k < n; k++ {
+			hm.MetadataDefs = append(hm.MetadataDefs, &metadata.Tuple{MetadataID: -1, Fields: []metadata.Field{&metadata.String{Value: fmt.Sprintf("n%d", k)}}})
+		}
+		hm.NamedMetadataDefs["all"] = &metadata.NamedDef{Name: "all", Nodes: []metadata.Node{hm.MetadataDefs[0].(metadata.Node)}}
+		var text string
+		steps := 1 + rh.intn(3)
+		oc, msg := guard(func() error {
+			_ = hm.String()
+			for st := 0; st < steps; st++ {
+				k := rh.intn(len(hm.MetadataDefs))
+				fresh := &metadata.Tuple{MetadataID: -1, Fields: []metadata.Field{&metadata.String{Value: fmt.Sprintf("fresh%d", st)}}}
+				if rh.coin() {
+					hm.MetadataDefs[k] = fresh // replaced in place
+				} else {
+					hm.MetadataDefs = append(append([]metadata.Definition{}, hm.MetadataDefs[:k]...), hm.MetadataDefs[k+1:]...)
+					hm.MetadataDefs = append(hm.MetadataDefs, fresh) // removed, appended
+				}
+				hm.NamedMetadataDefs["all"].Nodes = []metadata.Node{fresh}
+				text = hm.String()
+			}
+			return nil
+		})
+		o.Stat("md_histories")
+		bad := ""
+		if oc != ocOk {
+			bad = "printing panics: " + msg
+		} else if m2, err := asm.ParseString("c17h.ll", text); err != nil {
+			bad = "the second print does not parse: " + err.Error()
+		} else if len(m2.MetadataDefs) != n {
+			bad = fmt.Sprintf("%d definitions in the module, %d after print and parse", n, len(m2.MetadataDefs))
+		}
+		if bad != "" {
+			o.Fail("md_constructed", "", bad, map[string]interface{}{"printed": text, "definitions": n, "steps": steps})
+		} else {
+			o.Pass("md_history")
 		}
 	}
 	// 4. constructed: references print the ID of the node they point to
